@@ -213,6 +213,9 @@ func Execute(t *testing.T, plan *Plan) (res *Result) {
 func (s *Sim) run(res *Result) {
 	plan := s.Plan
 	cfg := &plan.Cfg
+	if cfg.Sched.StallAfterFrac > 0 && cfg.Sched.StallAfter == 0 {
+		cfg.Sched.StallAfter = time.Duration(cfg.Sched.StallAfterFrac * float64(cfg.HorizonMs) * float64(time.Millisecond))
+	}
 	w := simrt.NewWorld(plan.Seed, cfg.Sched)
 	w.Beat = func() { fmt.Println("HB") }
 	s.W = w
